@@ -323,7 +323,7 @@ theorem parseEvent_extends (ps : ParseState) (bs : Bytes) (code : Nat) (ps' : Pa
 
 /-- **C12 over any number of calls**: the state after the whole event loop extends the state before it — so what the
     incremental API shows after any call is a prefix of what the loop finally holds. -/
-theorem eventLoop_extends : ∀ (fuel rawLen : Nat) (ps : ParseState) (bs : Bytes) (ps' : ParseState) (rest : Bytes),
+theorem eventLoop_extends_aux : ∀ (fuel rawLen : Nat) (ps : ParseState) (bs : Bytes) (ps' : ParseState) (rest : Bytes),
     eventLoop fuel rawLen ps bs = .ok (ps', rest) → ps.st.frames.Ext ps'.st.frames
   | 0, _, _, _, _, _, h => by simp [eventLoop] at h
   | fuel + 1, rawLen, ps, bs, ps', rest, h => by
@@ -338,8 +338,14 @@ theorem eventLoop_extends : ∀ (fuel rawLen : Nat) (ps : ParseState) (bs : Byte
         have h1 := parseEvent_extends ps bs code ps1 r1 hp
         split at h
         · cases h; exact h1
-        · exact FCols.ext_trans _ _ _ h1 (eventLoop_extends fuel rawLen ps1 r1 ps' rest h)
+        · exact FCols.ext_trans _ _ _ h1 (eventLoop_extends_aux fuel rawLen ps1 r1 ps' rest h)
     · cases h; exact FCols.ext_refl _
+
+/-- **C12 over any number of calls**: the state after the whole event loop extends the state before it — so what the
+    incremental API shows after any call is a prefix of what the loop finally holds. -/
+theorem eventLoop_extends (fuel rawLen : Nat) (ps : ParseState) (bs : Bytes) (ps' : ParseState) (rest : Bytes)
+    (h : eventLoop fuel rawLen ps bs = .ok (ps', rest)) : ps.st.frames.Ext ps'.st.frames :=
+  eventLoop_extends_aux fuel rawLen ps bs ps' rest h
 
 end Peppi
 
